@@ -52,7 +52,9 @@ def generate(ctx):
     quick = ctx.quick
     wmax = 6 if quick else 10
     # M + G in one exhaustive run: the invariants are the self-check, the constraint prints the points and the credential cases
-    m = ctx.tlc_must("Sortition", M_CFG % (wmax, "all", 3 if quick else 8, 2 if quick else 3, "quick" if quick else "thorough", "CONSTRAINT Leaf"), name="M_G_enumeration", timeout=1500, coverage=not quick)
+    m = ctx.tlc_must("Sortition", M_CFG % (wmax, "all", 3 if quick else 8, 2 if quick else 3, "quick" if quick else "thorough", "CONSTRAINT Leaf"), name="M_G_enumeration", timeout=1500, coverage=not quick,
+                     workers=1)   # one worker: with several workers TLC mis-evaluated states that carry BigNat values (a scan state was
+    # recovered with a wrong value: "Failed to recover the initial state from its fingerprint"); 10 s with one worker
     ctx.cov["exhaustive"] = m.ok
     ctx.cov["design_violation"] = m.violated
     if m.violated:
